@@ -6,7 +6,7 @@ from . import common as C
 
 # number of input fields (after the line kind) per line kind; the rest of a line is
 # derived data (params view, oracle answers) and the observation
-INPUT_FIELDS = {"K": 1, "W": 4, "P": 5, "A": 3, "a": 1, "O": 3}
+INPUT_FIELDS = {"K": 1, "W": 4, "P": 5, "A": 3, "a": 1, "O": 3, "Ws": 5, "Ps": 6, "Wc": 7, "Pc": 8}
 
 
 def input_of(line):
@@ -59,6 +59,13 @@ def run(ctx, res, cmd, pid, nontrivial, kind_of):
     for m in mism:
         line = lines[m["line"] - 1]
         inp = input_of(line)
+        group = []
+        if line[:2] in ("Ws", "Ps"):   # a sequence: the replay is the group up to the failing request
+            gid = line.split("\t")[1].split(".")[0]
+            i = m["line"] - 2
+            while i >= 0 and lines[i][:2] == line[:2] and lines[i].split("\t")[1].split(".")[0] == gid:
+                group.insert(0, dict(input=input_of(lines[i])))
+                i -= 1
         exp, got = m["expected"], m["got"]
         if exp.startswith("ORACLEMISS"):
             key, what, found = "corr:oracle-miss", \
@@ -80,6 +87,6 @@ def run(ctx, res, cmd, pid, nontrivial, kind_of):
             break
         res.violation(key, what,
                       dict(kind="failing-input" if found else "broken-correspondence",
-                           cases=[dict(input=inp, expected=exp, got=got, line=line[:2000])],
+                           cases=group + [dict(input=inp, expected=exp, got=got, line=line[:2000])],
                            replay_cmd="./check %s --replay <this file>" % pid), found_input=found)
     return lines
